@@ -16,7 +16,9 @@ Pipeline
      List / Dict / Optional / Union-of-class parameters are checked by the oracle only (outside the model), including
      Dict[str, Base] / List[Base] arguments fed by SEVERAL sources (explicit class per key / item first, short forms later:
      every key / item must keep its own earlier class and init_args).
-  4. open findings are replayed.
+  4. history within one process (oracle): a module attribute named by class_path is re-pointed to a sibling class, a
+     plugin module is rewritten with another signature and reloaded; the next parse must follow the CURRENT object.
+  5. open findings are replayed.
 """
 from __future__ import annotations
 
@@ -27,6 +29,7 @@ import importlib
 import io
 import json
 import os
+import random
 import re
 import shutil
 import sys
@@ -1741,6 +1744,93 @@ def run_container_multi(ctx: Ctx, fam, ckind, sources, origin):
         ctx.nontrivial(json.dumps(["container_multi", family_src(fam), ckind, container_argv(fam, ckind, sources)]))
 
 
+# ---------------------------------------------------------------------------------------------
+# history within one process: a class_path is resolved, the object behind the path changes, the same path is used again.
+# "class_path imports to" is evaluated at parse time: the result must follow the CURRENT object.
+# ---------------------------------------------------------------------------------------------
+def _parse_build(fam, path, ia):
+    """parse --opt {class_path: path, init_args: ia} for --opt: Base and instantiate; ('ok', obj, class_path) | ('reject', msg)"""
+    from jsonargparse import ArgumentError, ArgumentParser
+
+    mod = module_for(fam)
+    parser = ArgumentParser(exit_on_error=False)
+    parser.add_argument("--opt", type=mod.Base)
+    try:
+        cfg = parser.parse_args(["--opt", json.dumps({"class_path": path, "init_args": ia})])
+    except ArgumentError as ex:
+        return ("reject", str(ex).replace("\n", " | ")[:300])
+    mod.LOG.clear()
+    obj = parser.instantiate_classes(cfg).opt
+    mod.LOG.clear()
+    return ("ok", obj, cfg.opt.class_path)
+
+
+def history_problem(fam, seed):
+    """returns a description of the first deviation or None"""
+    rng = random.Random(seed)
+    mod = module_for(fam)
+    # (1) a module attribute is re-pointed to a sibling class
+    concrete = [t for t in acceptable(fam, "Base") if cls_of(fam, t) and not t.startswith("%")]
+    if len(concrete) >= 2:
+        a, b = rng.sample(concrete, 2)
+        path = modname(fam) + ".Current"
+        try:
+            for step, name in enumerate((a, b, a)):
+                setattr(mod, "Current", getattr(mod, name))
+                ia = raw_ia_json(fam, {k: v for k, v in gen_ia(rng, fam, name).items()})
+                r = _parse_build(fam, path, ia)
+                if r[0] != "ok":
+                    return "step %d: %s now is %s; init_args valid for %s are rejected: %s" % (step + 1, path, name, name, r[1])
+                if type(r[1]) is not getattr(mod, name):
+                    return "step %d: %s now is %s, but instantiate_classes built a %s (class_path %s)" % (step + 1, path, name, type(r[1]).__name__, r[2])
+                if r[2] != canonical(fam, name):
+                    return "step %d: %s now is %s, but class_path was normalised to %s" % (step + 1, path, name, r[2])
+        finally:
+            if hasattr(mod, "Current"):
+                delattr(mod, "Current")
+    # (2) a plugin module is rewritten with another signature and reloaded
+    d = os.path.join(pkg_dir(), "c14gen", "f_" + fam_hash(fam))
+    fname = os.path.join(d, "plug.py")
+    src = ("from .defs import Base\n\n\nclass Plug(Base):\n    def __init__(self, %s):\n        self.version = %d\n        self.%s = %s\n\n"
+           "    def run(self):\n        return 3\n")
+    versions = [("old_opt: int = 1", 1, "old_opt", "old_opt"), ("new_opt: str = 'x'", 2, "new_opt", "new_opt")]
+    plug_path = pkgname(fam) + ".plug.Plug"
+    plug_mod = None
+    for n, (params, version, attr, val) in enumerate(versions):
+        with open(fname, "w") as f:
+            f.write(src % (params, version, attr, val))
+        os.utime(fname, (1_700_000_000 + 10 * n + seed % 7, 1_700_000_000 + 10 * n + seed % 7))
+        importlib.invalidate_caches()
+        if plug_mod is None:
+            plug_mod = importlib.import_module(pkgname(fam) + ".plug")
+        else:
+            plug_mod = importlib.reload(plug_mod)
+        good = {"old_opt": 5} if version == 1 else {"new_opt": "w"}
+        bad = {"new_opt": "w"} if version == 1 else {"old_opt": 5}
+        r = _parse_build(fam, plug_path, good)
+        if r[0] != "ok":
+            return "plugin version %d: init_args valid for the CURRENT %s are rejected: %s" % (version, plug_path, r[1])
+        if type(r[1]) is not plug_mod.Plug or r[1].version != version:
+            return "plugin version %d: %s imports to the reloaded class, but an instance of version %r of the class was built" % (version, plug_path, getattr(r[1], "version", "?"))
+        r = _parse_build(fam, plug_path, bad)
+        if r[0] == "ok":
+            return "plugin version %d: init_args %s that the CURRENT %s does not accept are accepted" % (version, json.dumps(bad), plug_path)
+    return None
+
+
+def raw_ia_json(fam, ia):
+    return {k: raw_to_json(fam, v) for k, v in ia.items()}
+
+
+def run_history(ctx: Ctx, fam, seed, origin):
+    ctx.count()
+    ctx.hist("history", "rebind+reload")
+    dev = history_problem(fam, seed)
+    if dev is not None:
+        ctx.violation("the object behind a class_path changed within the process and the parser did not follow it: " + dev,
+                      {"kind": "history", "origin": origin, "family": fam, "seed": seed, "module": family_src(fam)})
+
+
 def run(ctx: Ctx):
     repo_python_path()
     ctx.rule = ("case = (generated class family as a real module: Base (sometimes abstract), SubA/SubB/SubC adding, overriding and dropping "
@@ -1802,6 +1892,11 @@ def run(ctx: Ctx):
                 run_container(ctx, fam, valid, ia)
             multi.extend(container_multi_cases(ctx.rng, fam))
         bad += run_container_multi_batch(ctx, multi, "generated")
+        # history within the process (re-pointed module attribute, reloaded plugin module)
+        if corpus_cases:
+            run_history(ctx, corpus_cases[0][0], 0, "corpus")
+        for n, fam in enumerate(fams[: ctx.budget(15, 60)]):
+            run_history(ctx, fam, ctx.rng.randrange(10 ** 6), "generated")
         ctx.extra["cases"] = {"corpus": len(corpus_cases), "generated": len(cases), "families": n_fam, "container_multi": len(multi)}
         ctx.extra["correspondence_disagreements"] = bad
 
@@ -1846,6 +1941,10 @@ def replay(ctx: Ctx, body):
             print("explicit:", build_argv(fam, rp["explicit"]), "->", json.dumps(a.get("cfg"))[:400])
             print("variant :", build_argv(fam, rp["variant"]), "->", json.dumps(b.get("cfg"))[:400])
             return 1 if (a["kind"], a.get("cfg")) != (b["kind"], b.get("cfg")) else 0
+        if rp.get("kind") == "history":
+            dev = history_problem(rp["family"], rp["seed"])
+            print("history (re-pointed module attribute, then a reloaded plugin module):", dev)
+            return 1 if dev else 0
         if rp.get("kind") == "container_multi":
             print(family_src(rp["family"]))
             print("--table: Dict[str, Base], --elems: List[Base]; parse_args(%r)" % (container_argv(rp["family"], rp["ckind"], rp["sources"]),))
